@@ -22,9 +22,12 @@
      Consequences (quirks, kept): a constant / type / field / `uses` / class header that comes
      after a method lands in THAT METHOD's table; the parameters of a procedure TYPE
      (`type t : proc(x : int4)`, `f : func(x : int4) return int4`, `var cb : proc(x : int4)`) are
-     AstParameterDeclaration nodes below the declaration and are inserted as variables into the
-     current table (the root table when no method has started), before the declaration that contains
-     them when that one is below the first level (post-order).
+     AstParameterDeclaration nodes below the declaration; since the repair c14b1c2 handle_param_decl
+     returns early unless the GRANDPARENT annotated node of the parameter is an AstProcedure or an
+     AstFunction (parameter -> parameter list -> method), so they insert nothing.  The walk therefore
+     carries, for every visited node, whether its grandparent is a method node (a child of the root
+     has no grandparent).  The rule before the repair (every parameter declaration inserts) is kept
+     in Proofs/AnnotWitness.v for the regression pair C10_old_type_param_leak_refuted / C10_fixed_type_param_leak.
    * handle_class / handle_module set the ROOT table's for_class_or_module (also when the header
      comes after a method) and insert into the CURRENT table; a class inserts two symbols, its name
      and `self`, both carrying the class name token's range.
@@ -137,10 +140,25 @@ Definition end_method (st : astate) : astate :=
 Definition new_scope (st : astate) : astate :=
   mkSt (st_root st) (Some (mkTable (t_cls (st_root st)) [] (t_uses (st_root st)))) (st_done st).
 
+(* AstProcedure / AstFunction *)
+Definition is_method_kind (k : akind) : bool :=
+  match k with KAstProcedure | KAstFunction => true | _ => false end.
+
+(* a visited node: (its grandparent is a method node, the node) *)
+Definition vnode := (bool * node)%type.
+
+(* the handler that acts: handle_param_decl only under a method's parameter list *)
+Definition dkind_at (p : vnode) : option dkind :=
+  match dkind_of (snd p) with
+  | Some DParam => if fst p then Some DParam else None
+  | k => k
+  end.
+
 (* ---------- visit ---------- *)
 
-Definition visit (st : astate) (n : node) : astate :=
-  match dkind_of n with
+Definition visit (st : astate) (p : vnode) : astate :=
+  let n := snd p in
+  match dkind_at p with
   | Some DClass => cur_insert (cur_insert (root_set_cls st (nident n)) (sym_of KClass n)) (self_of n)
   | Some DModule => cur_insert (root_set_cls st (nident n)) (sym_of KModule n)
   | Some DConst => cur_insert st (sym_of KConstant n)
@@ -156,22 +174,28 @@ Definition visit (st : astate) (n : node) : astate :=
 
 (* ---------- the walk ---------- *)
 
-(* walk_tree_postorder: the nodes in the order they are visited *)
-Fixpoint post (n : node) : list node :=
+(* walk_tree_postorder: the nodes in the order they are visited; gm / pm: the grandparent / the
+   parent of n is a method node *)
+Fixpoint post (gm pm : bool) (n : node) : list vnode :=
   match n with
-  | Node _ _ _ _ _ cs =>
-      (fix go (l : list node) : list node := match l with [] => [] | c :: r => post c ++ go r end) cs ++ [n]
+  | Node k _ _ _ _ cs =>
+      (fix go (l : list node) : list vnode :=
+         match l with [] => [] | c :: r => post pm (is_method_kind k) c ++ go r end) cs ++ [(gm, n)]
   end.
 
-Definition post_list (l : list node) : list node := flat_map post l.
+Definition post_list (gm pm : bool) (l : list node) : list vnode := flat_map (post gm pm) l.
 
-(* one child of the root: itself, then (full mode) everything below it in post-order *)
-Definition top_seq (defs_only : bool) (c : node) : list node :=
-  c :: (if defs_only then [] else post_list (nchildren c)).
+(* everything below the child c of the node t, in post-order *)
+Definition below (t c : node) : list vnode :=
+  post_list (is_method_kind (nkind t)) (is_method_kind (nkind c)) (nchildren c).
+
+(* one child of the root: itself (no grandparent), then (full mode) everything below it *)
+Definition top_seq (defs_only : bool) (root c : node) : list vnode :=
+  (false, c) :: (if defs_only then [] else below root c).
 
 (* walk_tree: the root, then its children *)
-Definition visit_seq (defs_only : bool) (root : node) : list node :=
-  root :: flat_map (top_seq defs_only) (nchildren root).
+Definition visit_seq (defs_only : bool) (root : node) : list vnode :=
+  (false, root) :: flat_map (top_seq defs_only root) (nchildren root).
 
 (* annotate_doc: walk_tree, then notify_end_method *)
 Definition annotate (defs_only : bool) (root : node) : astate :=
